@@ -5,8 +5,10 @@ What is extracted (each with a sentinel when the expected shape is missing):
   * passMode     - which condition switches debounced_sorted_prefix to pass-through:
                    `debouncer.is_complete` (onIsComplete) or a local flag that is
                    initialised False and set True in the marker branch (onMarkerConsumed)
-  * markerCmp / markerYield - the literal compared against in the consumer loop and the
-                   literal yielded by Debouncer.aiter
+  * markerCmp / markerYield - what the consumer loop compares against and what the generator
+                   merged as second source yields (a string literal or a module-level name)
+  * markerInBand - the comparison is `==` against a literal (an item of `inner` can be equal to
+                   it and is then swallowed) rather than `is` against a module-private object()
   * mergeDefaultStop - default of merge_generators(stop_on_first_completion=...)
   * dspMergeStop - the flag debounced_sorted_prefix passes to merge_generators
   * dspSources   - number of positional sources it passes (inner, debouncer.aiter())
@@ -39,7 +41,7 @@ def _lean_str(s: str | None) -> str:
 
 def extract() -> dict:
     """Returns the extracted facts (also used by the check itself)."""
-    facts: dict = {"passMode": "unknown", "markerCmp": None, "markerYield": None, "mergeDefaultStop": None,
+    facts: dict = {"passMode": "unknown", "markerCmp": None, "markerYield": None, "markerInBand": True, "mergeDefaultStop": None,
                    "dspMergeStop": None, "dspSources": None, "waitFirstCompleted": False, "sortStableByKey": False,
                    "notes": []}
     notes = facts["notes"]
@@ -65,9 +67,21 @@ def extract() -> dict:
         t = top_if.test
         if (isinstance(t, ast.Compare) and len(t.ops) == 1 and isinstance(t.ops[0], ast.Eq)
                 and isinstance(t.comparators[0], ast.Constant) and isinstance(t.comparators[0].value, str)):
-            facts["markerCmp"] = t.comparators[0].value
+            facts["markerCmp"] = "lit:" + t.comparators[0].value
+        elif (isinstance(t, ast.Compare) and len(t.ops) == 1 and isinstance(t.ops[0], ast.Is)
+                and isinstance(t.comparators[0], ast.Name)):
+            name = t.comparators[0].id
+            facts["markerCmp"] = "name:" + name
+            # private marker: module-level `NAME = object()` (possibly annotated), assigned once
+            assigns = [n for n in tree.body if (isinstance(n, ast.Assign) and any(isinstance(x, ast.Name) and x.id == name for x in n.targets))
+                       or (isinstance(n, ast.AnnAssign) and isinstance(n.target, ast.Name) and n.target.id == name)]
+            if (len(assigns) == 1 and isinstance(assigns[0].value, ast.Call) and isinstance(assigns[0].value.func, ast.Name)
+                    and assigns[0].value.func.id == "object" and not assigns[0].value.args):
+                facts["markerInBand"] = False
+            else:
+                notes.append(f"iterutils: marker name {name} is not a module-level `object()`")
         else:
-            notes.append("iterutils: marker test is not `item == <str literal>`")
+            notes.append("iterutils: marker test is neither `item == <str literal>` nor `item is <NAME>`")
         # marker branch: sort(key=key), yield loop, buffer reset (, flag := True)
         mb = top_if.body
         sort_ok = any(isinstance(s, ast.Expr) and isinstance(s.value, ast.Call) and isinstance(s.value.func, ast.Attribute)
@@ -144,14 +158,23 @@ def extract() -> dict:
                     facts["waitFirstCompleted"] = True
     if not facts["waitFirstCompleted"]:
         notes.append("iterutils: merge_generators does not wait with return_when=FIRST_COMPLETED")
-    # ---- Debouncer.aiter yields the marker
-    ait = _find_func(deb, "aiter")
-    if ait is not None:
-        ys = [n for n in ast.walk(ait) if isinstance(n, ast.Yield)]
+    # ---- the generator merged as second source yields the marker
+    marker_gen = None
+    for n in ast.walk(dsp):
+        if isinstance(n, ast.Call) and isinstance(n.func, ast.Name) and n.func.id == "merge_generators" and len(n.args) == 2:
+            a = n.args[1]
+            if isinstance(a, ast.Call) and isinstance(a.func, ast.Attribute) and a.func.attr == "aiter":
+                marker_gen = _find_func(deb, "aiter")
+            elif isinstance(a, ast.Call) and isinstance(a.func, ast.Name):
+                marker_gen = next((f for f in tree.body if isinstance(f, ast.AsyncFunctionDef) and f.name == a.func.id), None)
+    if marker_gen is not None:
+        ys = [n for n in ast.walk(marker_gen) if isinstance(n, ast.Yield)]
         if len(ys) == 1 and isinstance(ys[0].value, ast.Constant) and isinstance(ys[0].value.value, str):
-            facts["markerYield"] = ys[0].value.value
+            facts["markerYield"] = "lit:" + ys[0].value.value
+        elif len(ys) == 1 and isinstance(ys[0].value, ast.Name):
+            facts["markerYield"] = "name:" + ys[0].value.id
     if facts["markerYield"] is None:
-        notes.append("iterutils: Debouncer.aiter does not yield exactly one string literal")
+        notes.append("iterutils: the second merged source does not yield exactly one literal / module-level name")
     return facts
 
 
@@ -177,6 +200,7 @@ def generate(notes: list[str]) -> list[str]:
         f"def passMode : PassMode := {mode}",
         f"def markerCmp : String := {_lean_str(f['markerCmp'])}",
         f"def markerYield : String := {_lean_str(f['markerYield'])}",
+        f"def markerInBand : Bool := {_b(f['markerInBand'])}",
         f"def mergeDefaultStop : Bool := {_b(f['mergeDefaultStop'])}",
         f"def mergeDefaultStopKnown : Bool := {_b(isinstance(f['mergeDefaultStop'], bool))}",
         f"def dspMergeStop : Bool := {_b(f['dspMergeStop'])}",
